@@ -132,9 +132,13 @@ def judge(case, io_, mo):
             want = 'OK ' + hb(data + b'\x40' * fill)
         else:
             want = 'OK ' + hb(payload_of(f)) if well_formed_blocks(f) else 'RAISE DATAERR'
-        if io_['out'] != want:
+        # "inverts the blocking function up to 0x40 fill": the one-shot blocker may close with the optional all-fill block
+        # (C04), which then comes back as one more block of fill
+        extra = hb(b'\x40' * B)
+        ok = io_['out'] == want or (k == 'inv' and io_['out'] == want + extra and case['n'] > 0)
+        if not ok:
             ps.append({'kind': 'oracle', 'sig': 'oneshot-' + k, 'msg': 'unblock_1014 (%s): got %s, expected %s' % (k, io_['out'][:50], want[:50])})
-        elif mo is not None and mo[0] != io_['out']:
+        elif mo is not None and mo[0] != io_['out'] and not (k == 'inv' and io_['out'] == mo[0] + extra):
             ps.append({'kind': 'corr', 'sig': 'unblk1', 'msg': 'unblock_1014 differs from model unblock_oneshot'})
     return ps
 
